@@ -272,6 +272,9 @@ pub fn profile_for(prop: &str, thorough: bool) -> Profile {
             p.w_close = 0;
             p.w_retain = 3;
             p.w_return = 14;
+            // "the creation instant never changes" is stated for every pooled object: idle
+            // objects that survive a resize are included
+            p.w_resize = 2;
         }
         "C03" => {
             p.fault_pct = 45;
